@@ -194,7 +194,11 @@ where
     F: Fn(&char) -> bool,
 {
     one_p('&')
-        .and(one_p(radix), StringCombiner)
+        .and(
+            // the radix letter is not case sensitive
+            read_p().filter(move |ch: &char| ch.eq_ignore_ascii_case(&radix)),
+            StringCombiner,
+        )
         .and(
             one_char_to_str('-')
                 .to_option()
